@@ -1,24 +1,31 @@
 (* C01 — builder-constructed HUGRs satisfy the specification's validity rules.
    Property-level theorems only; each is closed by an exact reference to a lemma of proofs/BuilderP.v.
 
-   The goal, at full strength (NOT proved; every conjunct of `valid` not listed in the partial theorem
-   below is evaluated by the monitor on the implementation's own document for every generated program):
+   The goal, at full strength, IS NOW PROVED for the modelled builder language (second pass; theorem
+   C01_builder_valid at the end of this file):
 
-     C01_builder_valid (the goal) : forall tys p g,
-       WFProg p ->                      (* inputs wired once, linear values used once, Ext/Dom wires copyable,
-                                           order edges forward: the premises of harness/progs.py *)
-       run tys p = Ok g ->
-       valid {| v_tys := tys; v_main := g; v_subs := [] |} = true.
+       forall tys p g,
+         r_table tys = true ->            (* the type table is consistent *)
+         wf_prog tys p = true ->          (* spec/BuilderWFS.v, a boolean computed from the program text:
+                                             wt_prog (wires bound and typed, arguments match fixed signatures),
+                                             ord_prog (add_state_order forward inside its region),
+                                             lin_prog (non-copyable wires consumed exactly once, in their region) *)
+         run tys p = Ok g ->              (* no builder call raises *)
+         valid {| v_tys := tys; v_main := g; v_subs := [] |} = true.
+
+   For builder calls outside the model (Function/Module/Cfg/Conditional/TailLoop roots and statements, call /
+   load_function, CallIndirect, insert_*, tracked builder) `valid` is evaluated by the monitor on the implementation's
+   own document for every generated program.
 
    `run` is the builder model of model/Builder.v (programs over Dfg / add_op / add / extend / load /
    add_nested / add_state_order / set_outputs with non-local wires, any nesting depth); it is tied to
    hugr-py by the correspondence `run prog == the document the real builders serialise` on generated
-   programs (run/C01Run.v). *)
+   programs (run/C01Run.v), and the premise wf_prog is evaluated on each of those programs. *)
 From Coq Require Import NArith List Bool.
 Import ListNotations.
 From HV Require Import lib.Harness model.Validity model.Builder spec.BuilderS proofs.BuilderP proofs.BuilderExtP
   spec.BuilderWFS proofs.BuilderFrameP proofs.BuilderRulesP proofs.BuilderTypeP
-  proofs.BuilderAcyclicP proofs.BuilderNonLocalP proofs.BuilderInputsP proofs.BuilderLinearP.
+  proofs.BuilderAcyclicP proofs.BuilderNonLocalP proofs.BuilderInputsP proofs.BuilderLinearP proofs.BuilderCopyP.
 
 (* Proved for ALL programs of the modelled language, with no well-formedness premise: whenever the
    builder calls do not raise, the serialised document satisfies
@@ -147,3 +154,23 @@ Theorem C01_model_has_ext_wire : exists st, exec_prog ex_tys ex_prog = Ok st /\
   existsb (fun e => port_link e && negb (optN_eqb (anc_sib st (e_src e) (e_dst e)) (Some (e_dst e)))) (s_links st) = true.
 Proof. exact ex_has_ext_wire. Qed.
 Print Assumptions C01_model_has_ext_wire.
+
+(* Second pass.  r_nonlocal_copyable (rule 11): no non-local edge carries a non-copyable value and no order edge is
+   non-local, for every well-formed program (wf_prog = wt_prog && ord_prog && lin_prog). *)
+Theorem C01_builder_nonlocal_copyable : forall tys p g,
+  wf_prog tys p = true -> run tys p = Ok g -> r_nonlocal_copyable tys g = true.
+Proof. exact run_nonlocal_copyable. Qed.
+Print Assumptions C01_builder_nonlocal_copyable.
+
+(* THE GOAL for the modelled builder language: every well-formed program whose builder calls do not raise
+   serialises a document that the whole of `valid` (all 18 rules and the type table) accepts. *)
+Theorem C01_builder_valid : forall tys p g,
+  r_table tys = true -> wf_prog tys p = true -> run tys p = Ok g ->
+  valid {| v_tys := tys; v_main := g; v_subs := [] |} = true.
+Proof. exact run_valid. Qed.
+Print Assumptions C01_builder_valid.
+
+(* its premises are satisfiable: the 13-node example program of C01_wf_example *)
+Theorem C01_wf_premises_example : wf_prog ex2_tys ex2_prog = true /\ r_table ex2_tys = true.
+Proof. exact ex2_wf. Qed.
+Print Assumptions C01_wf_premises_example.
